@@ -11,6 +11,9 @@
                                 unscheduling) it is not on that server after the cycle;
       C08_blacklisted_unplaced  a blacklisted instance ends the cycle without a server and without an identity;
       (a server that is not up receives no new instance: C03_new_assignment.)
+      C08_master_since          master level: the `since` against which the retention is measured is the time a master
+                                first saw the server's presence gone, through restarts, fail-overs and record reloads
+                                (Master/SrvState.v, tied to Loader/Master by its own correspondence stage);
     and for every cell state (Sched/FrameP.v):
       C08_retention_decision / C08_expired   which instances the first phase moves off an inactive server;
       C08_no_capacity_eviction_meanwhile / C08_nonup_receives_nothing
@@ -25,7 +28,7 @@
                                 (hence the premise a_renew = false; C07 exempts a failing renewal, C08 does not). *)
 From Coq Require Import ZArith QArith List Bool.
 From TM Require Import Sched.Vec Sched.Types Sched.Queue Sched.Tree Sched.Cycle Sched.Events Sched.MapsP Sched.Steps Sched.FrameP
-                       Sched.InvAcct Sched.InvIdent Sched.TurnP Sched.CycleP Sched.KeepP Sched.Reach.
+                       Sched.InvAcct Sched.InvIdent Sched.TurnP Sched.CycleP Sched.KeepP Sched.Reach Master.SrvState Master.SrvStateP.
 From TM Require Import Base.ShapeCanon.
 Import ListNotations.
 Open Scope Z_scope.
@@ -88,6 +91,19 @@ Theorem C08_blacklisted_unplaced : forall c ch x a, reachable c ->
              (a_group a' = None \/ a_identity a' = None).
 Proof. intros c ch x a Hr. exact (reachable_blacklisted c ch x a (reachable_Good c Hr)). Qed.
 Print Assumptions C08_blacklisted_unplaced.
+
+(** master level (Master/SrvState.v, model of Loader.adjust_server_state / adjust_presence / load_server and
+    Master._record_server_state for one server): whatever presence changes, master (re)starts and record reloads have
+    happened, a server that is down in memory and has a stored record has exactly that record and its `since` is the time
+    a master first saw its presence gone in the current absence; an up server never has a record saying "down" (a stale
+    one would be replayed at the next failure and cut the retention short) *)
+Theorem C08_master_since : forall pres ops st t, Forall natural ops ->
+  let r := grun (init_srv pres) None ops in
+  sv_mem (fst r) = Some (st, t) ->
+  (st = Down -> sv_rec (fst r) <> None -> sv_rec (fst r) = Some (Down, t) /\ snd r = Some t) /\
+  (st = Up -> snd r = None /\ forall u, sv_rec (fst r) <> Some (Down, u)).
+Proof. exact down_since_is_observed_loss. Qed.
+Print Assumptions C08_master_since.
 
 (** the code as it is: group of 3, instance 3 holds identity 2 on a server that went down at 1000 with retention 100;
     the group shrinks to 2; the cycle at 1001 removes the instance although retention lasts until 1100 *)
